@@ -67,7 +67,12 @@ pub const VOCAB: &[&str] = &[
     "Zusammen\u{ad}arbeit", "🇩🇪🇩🇪",
 ];
 
-pub const SGR: &[&str] = &["\x1b[31m", "\x1b[0m", "\x1b[1;34m", "\x1b[m", "\x1b[38;5;196m", "\x1b[4:3m", "\x1b[38:5:208m"];
+pub const SGR: &[&str] = &[
+    "\x1b[31m", "\x1b[0m", "\x1b[1;34m", "\x1b[m", "\x1b[38;5;196m", "\x1b[4:3m", "\x1b[38:5:208m",
+    // long parameter strings (more than 32 and more than 64 bytes)
+    "\x1b[38;2;255;128;64;48;2;255;255;255m",
+    "\x1b[1;2;3;4;5;6;7;8;9;10;11;12;13;14;15;16;17;18;19;20;21;22;23;24;25;26;27;28;29;30m",
+];
 /// well-formed CSI sequences whose final byte is not a letter, OSC with a backslash in the payload
 pub const OTHER_SEQ: &[&str] = &["\x1b[1~", "\x1b[2@", "\x1b[5`", "\x1b]0;C:\\tmp\x07", "\x1b]8;;file://C:\\x\x1b\\"];
 pub const OSC_OPEN: &[&str] = &[
@@ -213,7 +218,10 @@ pub fn width_for(r: &mut Rng, text: &str) -> usize {
         14 => dwv + 1,
         15 => dwv.saturating_sub(1),
         16 => r.range(dwv, bl.max(dwv) + 2),
-        17 => r.range(20, 80),
+        17 => {
+            let mid = r.range(20, 80);
+            *r.pick(&[mid, mid, mid, 63, 64, 65, 127, 128, 129, 130, 131, 255, 256, 257, 400])
+        }
         18 => *r.pick(&[usize::MAX, usize::MAX - 1, 1 << 53, (1 << 53) + 1, (1 << 53) - 1, 1 << 32, 1000]),
         _ => r.range(1, 12),
     }
